@@ -75,6 +75,17 @@ func (d *qeDom) Gen(r *gen.R, tier string, emit func(string)) {
 			genReq("late")
 		}
 	}
+	// scenarios with two callbacks in flight
+	nscen := 3
+	if tier == "thorough" {
+		nscen = 12
+	}
+	for i := 0; i < nscen; i++ {
+		emit(wire.Line("reset"))
+		emit(wire.Line("serial", strconv.Itoa(1+i%3)))
+		emit(wire.Line("reset"))
+		emit(wire.Line("queued", strconv.Itoa(1+i%3)))
+	}
 	emit(wire.Line("reset"))
 }
 
@@ -310,6 +321,9 @@ func (d *qeDom) Exec(a []string) string {
 				return "no-query-subject"
 			}
 			return "ok"
+		case "serial", "queued":
+			d.Close()
+			return qeScenario(a)
 		case "req":
 			out, _ := d.send(a[1], a[2:], 2000)
 			return out
